@@ -68,7 +68,7 @@ pub static DROPS: AtomicU64 = AtomicU64::new(0);
 
 pub fn reg_capacity() -> usize {
     if cfg!(miri) {
-        1 << 13
+        1 << 8
     } else {
         1 << 21
     }
